@@ -73,6 +73,14 @@ func c08Eval(c *fw.Ctx, k c08Case) (sig, desc string, nontrivial bool, outcome s
 		(&BFile{L: l, Rings: dst, Base: basePicks(k.Dst, len(l.Archs))}).Write(dpath)
 	case "fresh":
 		(&BFile{L: l, Rings: dst}).Write(dpath)
+	case "coarser-equal":
+		// every archive but the finest already equals the source
+		for i := 1; i < len(l.Archs); i++ {
+			for c, s := range src[i] {
+				dst[i][c] = s
+			}
+		}
+		(&BFile{L: l, Rings: dst}).Write(dpath)
 	case "other-layout":
 		o := LayoutByTag("L5")
 		if k.Layout == "L5" {
@@ -237,7 +245,7 @@ func c08Eval(c *fw.Ctx, k c08Case) (sig, desc string, nontrivial bool, outcome s
 }
 
 func runC08(c *fw.Ctx) {
-	tags := []string{"L4"}
+	tags := []string{"L4", "L10"}
 	if c.Thorough() {
 		tags = append(tags, "L5")
 	}
@@ -257,7 +265,7 @@ func runC08(c *fw.Ctx) {
 		srcs := allCodes(ns, 3)
 		dsts2 := allCodes(ns, 2)
 		dsts3 := allCodes(ns, 3)
-		if tag != "L4" {
+		if tag == "L5" {
 			var s2 [][]int
 			for i, s := range srcs {
 				if i%41 == 0 {
@@ -267,13 +275,24 @@ func runC08(c *fw.Ctx) {
 			srcs = s2
 			dsts2 = dsts2[:64]
 		}
+		if tag == "L10" && !c.Thorough() {
+			// three levels: every third source content, destinations over {absent, 5} plus "equal to the source in the coarser archives"
+			var s2 [][]int
+			for i, s := range srcs {
+				if i%3 == 0 {
+					s2 = append(s2, s)
+				}
+			}
+			srcs = s2
+			dsts2 = dsts2[:32]
+		}
 		mx := [][2]float32{{2, 0}, {3, 0.5}, {1, 0}}
 		for si, s := range srcs {
 			dsts := dsts2
 			if si%3 == 0 && tag == "L4" && c.Thorough() {
 				dsts = dsts3
 			}
-			for di := -3; di < len(dsts); di++ {
+			for di := -4; di < len(dsts); di++ {
 				if !c.Mine() {
 					continue
 				}
@@ -283,6 +302,8 @@ func runC08(c *fw.Ctx) {
 				kind := "file"
 				var d []int
 				switch di {
+				case -4:
+					kind = "coarser-equal"
 				case -3:
 					kind = "missing"
 				case -2:
@@ -292,10 +313,14 @@ func runC08(c *fw.Ctx) {
 				default:
 					d = dsts[di]
 				}
-				for ai, arch := range []int{-1, 0, 1} {
+				archSel := []int{-1, 0, 1}
+				if len(ld.Archs) > 2 {
+					archSel = append(archSel, 2)
+				}
+				for ai, arch := range archSel {
 					for wi, w := range wins {
 						for ni, cn := range []bool{false, true} {
-							m := mx[(si+di+3+ai+wi+ni)%len(mx)]
+							m := mx[(si+di+4+ai+wi+ni)%len(mx)]
 							if !c.Thorough() && (wi > 1 || ai > 0) && (si+di+ai+wi+ni)%3 != 0 {
 								continue
 							}
